@@ -32,14 +32,16 @@ for name, res in sorted(ms.items()):
     json.dump(d, open(mp, "w"), indent=1)
 nb = 0
 for name, res in sorted(mb.items()):
-    mp = os.path.join(V, "benign", name, "meta.json")
-    if not os.path.exists(mp) or "error" in res:
+    if "error" in res:
         continue
-    d = json.load(open(mp))
     fired = [p for p in P if res[p]["exit"] == 1]
     aes = [p for p in P if res[p]["exit"] == 2]
-    d["final_evaluation"] = {"fired": fired, "analysis_error": aes, "silent": not fired and not aes}
     nb += not fired and not aes
+    mp = os.path.join(V, "benign", name, "meta.json")
+    if not os.path.exists(mp):
+        continue
+    d = json.load(open(mp))
+    d["final_evaluation"] = {"fired": fired, "analysis_error": aes, "silent": not fired and not aes}
     json.dump(d, open(mp, "w"), indent=1)
 print("seeded: %d entries, %d reported by the own property, %d analysis errors, %d silent" % (len(ms), own, ae, silent))
 print("benign: %d entries, %d silent" % (len(mb), nb))
